@@ -38,7 +38,7 @@ use crate::{
   lexer::Position,
   parser::Error,
   pest_parser::{CddlParser, Rule},
-  token::{lookup_control_from_str, ControlOperator, SocketPlug, TagConstraint, Value},
+  token::{lookup_control_from_str, ByteValue, ControlOperator, SocketPlug, TagConstraint, Value},
 };
 
 use pest::{
@@ -3474,6 +3474,9 @@ fn convert_member_key_simple<'a>(
           ast::Type2::UintValue { value, .. } => Value::UINT(value),
           ast::Type2::FloatValue { value, .. } => Value::FLOAT(value),
           ast::Type2::TextValue { value, .. } => Value::TEXT(value),
+          ast::Type2::UTF8ByteString { value, .. } => Value::BYTE(ByteValue::UTF8(value)),
+          ast::Type2::B16ByteString { value, .. } => Value::BYTE(ByteValue::B16(value)),
+          ast::Type2::B64ByteString { value, .. } => Value::BYTE(ByteValue::B64(value)),
           _ => {
             return Err(Error::PARSER {
               #[cfg(feature = "ast-span")]
@@ -3564,6 +3567,9 @@ fn convert_member_key_simple<'a>(
           ast::Type2::UintValue { value, .. } => Value::UINT(value),
           ast::Type2::FloatValue { value, .. } => Value::FLOAT(value),
           ast::Type2::TextValue { value, .. } => Value::TEXT(value),
+          ast::Type2::UTF8ByteString { value, .. } => Value::BYTE(ByteValue::UTF8(value)),
+          ast::Type2::B16ByteString { value, .. } => Value::BYTE(ByteValue::B16(value)),
+          ast::Type2::B64ByteString { value, .. } => Value::BYTE(ByteValue::B64(value)),
           _ => {
             return Err(Error::PARSER {
               msg: ErrorMsg {
